@@ -376,3 +376,75 @@ func TestVerifC03DegenerateA(t *testing.T) {
 	r.Rule = "keys {toyA, k1024a} x A in {0, n, 2n, n(n+1)} x {single proof, second member of a list with the secret-key response of the honest first member}; challenge computed from what the verifier reconstructs; non-trivial = distinct forgery; oracle: never accepted"
 	vfDegenerateAForgeries(r, "C03", []string{"toyA", "k1024a"})
 }
+
+// TestVerifC03UnboundMember: a member that cannot be reconstructed (an issuance commitment with a
+// response for an index that does not exist, or for index 0) is appended to an honest list that was made
+// without it; it carries the list's challenge and the honest member's secret-key response although it
+// is about another secret.  Whatever the verifier does with a member it cannot reconstruct, it must not
+// leave it out of the challenge and then count it as linked.
+func TestVerifC03UnboundMember(t *testing.T) {
+	r := vkit.Start(t, "C03", "unbound-member", 120*time.Second, 300*time.Second)
+	defer r.Finish()
+	r.Rule = "keys {toyA, k1024a} x honest first member {disclosure proof, issuance commitment} (a list of its own) x appended issuance commitment about another secret with m_user_responses index in {0, len(R), -1, 1000} and, as control, none (reconstructible, still not part of the hash); appended before and after the honest member; labels {none, equal}; non-trivial = distinct case; oracle: rejected"
+	vfInstallEnv(t, "C03/unbound", r.Seed)
+	for _, keyName := range []string{"toyA", "k1024a"} {
+		k := vfK(keyName)
+		pk := k.Pk
+		for _, first := range []string{"disclosure", "issuance"} {
+			for _, badIdx := range []int{0, len(pk.R), -1, 1000, -99} { // -99: no extra response
+				for _, pos := range []string{"after", "before"} {
+					if _, mine := r.Next(); !mine {
+						continue
+					}
+					desc := fmt.Sprintf("%s first=%s appended-commitment-with-response-index=%d %s the honest member", keyName, first, badIdx, pos)
+					r.Eval()
+					r.Nontrivial(desc)
+					sec := vfTag("c03-unbound-secret")
+					var b0 ProofBuilder
+					var err error
+					if first == "disclosure" {
+						b0, err = vfMint(k, sec, []*big.Int{vfInt(11), vfInt(22)}, 3).CreateDisclosureProofBuilder([]int{1}, nil, false)
+					} else {
+						b0, err = NewCredentialBuilder(pk, vfContext, sec, vsNonce2, nil, nil)
+					}
+					if err != nil {
+						r.HarnessError("%v", err)
+						return
+					}
+					L, err := ProofBuilderList{b0}.BuildProofList(vfContext, vfNonce, false)
+					if err != nil {
+						r.HarnessError("%v", err)
+						return
+					}
+					other := vfTag("c03-unbound-other-secret")
+					u := new(big.Int).Exp(pk.S, vfInt(12345), pk.N)
+					u.Mul(u, new(big.Int).Exp(pk.R[0], other, pk.N)).Mod(u, pk.N)
+					var listC *big.Int
+					switch q := L[0].(type) {
+					case *ProofD:
+						listC = q.C
+					case *ProofU:
+						listC = q.C
+					}
+					pu := &ProofU{U: u, C: vfCopy(listC), VPrimeResponse: vfInt(777), SResponse: vfCopy(L[0].SecretKeyResponse()), MUserResponses: map[int]*big.Int{}}
+					if badIdx != -99 {
+						pu.MUserResponses[badIdx] = vfInt(5)
+					}
+					list := ProofList{L[0], pu}
+					pks := []*gabikeys.PublicKey{pk, pk}
+					if pos == "before" {
+						list = ProofList{pu, L[0]}
+					}
+					for _, labels := range [][]string{nil, {"kss", "kss"}} {
+						var ok bool
+						pan, _ := vkit.Guard(func() { ok = list.Verify(pks, vfContext, vfNonce, false, labels) })
+						r.Outcome(fmt.Sprintf("unbound-member:%s:panic=%v:accepted=%v", pos, pan, ok))
+						if !pan && ok {
+							r.Violate("C03|list-with-an-unbound-member-accepted", fmt.Sprintf("%s (labels %v): accepted although the appended member is about another secret and not covered by the challenge", desc, labels), desc)
+						}
+					}
+				}
+			}
+		}
+	}
+}
